@@ -262,3 +262,56 @@ def shared_recentre(ctx: Ctx) -> None:
     from . import C14 as _c14
     from .common import support
     support(ctx, [_c14.r4], {"Module.recenter_rectangles", "Module.calculate_center_from_rectangles"})
+
+
+@rule("C10", "R7.optimised-before-returned", "MUST-PASS",
+      "what glbfloor returns has been through the optimisation: every way from the entry of glbfloor to its return (with at least one "
+      "iteration allowed) calls optimize_allocation, and the loop leaves early only after an iteration has been made (the "
+      "'nothing left to refine' test is not applied to the raw initial allocation)", floor=1)
+def r7_optimised(ctx: Ctx) -> None:
+    f = ctx.func(GLB, "glbfloor")
+    g = ctx.cfg(f)
+    cn = g.canon()
+    loops = [n for n in walk_own(f.node) if isinstance(n, ast.While)]
+    ctx.require(len(loops) >= 1, "glbfloor: iteration loop not found")
+    # the iteration counter: a local initialised to 1 before the loop and advanced in the loop after the optimisation call
+    counters = []
+    names = {x.target.id for x in ast.walk(loops[0]) if isinstance(x, ast.AugAssign) and isinstance(x.target, ast.Name) and isinstance(x.op, ast.Add)
+             and isinstance(x.value, ast.Constant) and x.value.value == 1}
+    for nm in sorted(names):
+        incs = [x for x in ast.walk(loops[0]) if isinstance(x, ast.AugAssign) and isinstance(x.target, ast.Name) and x.target.id == nm]
+        # its value when the loop is entered: the constant it is set to plus the constant steps made before the loop
+        val = None
+        for st in f.node.body:
+            if st is loops[0]:
+                break
+            if isinstance(st, ast.Assign) and len(st.targets) == 1 and isinstance(st.targets[0], ast.Name) and st.targets[0].id == nm:
+                val = st.value.value if isinstance(st.value, ast.Constant) and isinstance(st.value.value, int) else None
+            elif isinstance(st, ast.AugAssign) and isinstance(st.target, ast.Name) and st.target.id == nm:
+                val = val + st.value.value if val is not None and isinstance(st.op, ast.Add) and isinstance(st.value, ast.Constant) and isinstance(st.value.value, int) else None
+        if len(incs) == 1 and val is not None:
+            counters.append((nm, incs[0], val))
+    nm, inc, first = counters[0]
+    cnt = cn.expr(ast.Name(id=nm, ctx=ast.Load()))
+
+    def is_opt(n):
+        return n.ast is not None and n.kind == "stmt" and any(isinstance(c_, ast.Call) and call_name(c_) == "optimize_allocation" for c_ in ast.walk(n.ast))
+    opt_nodes = [n for n in g.stmt_nodes() if is_opt(n)]
+    ctx.require(len(opt_nodes) >= 1, "glbfloor: optimize_allocation call not found")
+    # the counter is advanced only after the optimisation of that iteration
+    inc_node = g.node_for(inc)
+    counted_after = g.must_pass(is_opt, g.node_for(loops[0]), inc_node)
+    n_br = 0
+    ok = counted_after
+    for n in g.stmt_nodes():
+        if isinstance(n.ast, ast.Break) and any(x is n.ast for x in ast.walk(loops[0])):
+            n_br += 1
+            facts = g.facts_at(n.id)
+            later = any(fa in facts for fa in (mk_lt(k_num(first), cnt), mk_not(mk_lt(cnt, k_num(first + 1)))))
+            if not later:
+                ok = False
+                ctx.report(f.where, f"break-before-optimisation {norm_stmt(n.ast)}", "glbfloor can leave its loop in the first iteration, before any optimisation was made: "
+                           "the raw geometric allocation (cells occupied beyond 100%) is then returned as the result", lineno=n.lineno, facts=facts_text(facts))
+    if not counted_after:
+        ctx.report(f.where, "counter-before-optimisation", "the iteration counter is advanced on a path that did not optimise", lineno=inc.lineno)
+    ctx.site(f.where, "an early exit of the loop is taken only from the second iteration on (counter > 1), the counter counts optimisations", breaks=n_br, ok=ok)
